@@ -46,15 +46,17 @@ SPEC = {
                    'functions': 13, 'root_kinds': 'Netlist, Library, Definition, Instance, Port, Cable, InnerPin, OuterPin, Wire, HRef to instance / port / pin / cable / wire',
                    'roots_per_function_and_netlist': {'quick': '6 of the 14 kinds', 'thorough': 'one of each of the 14 kinds'}, 'keys': ['.NAME', 'EDIF.identifier', 'user'],
                    'patterns_per_key': 'from <= 3 present values: exact, case-swapped, prefix*, *suffix, single ?, re.escape (is_re), pairs / duplicates / mixed lists',
-                   'is_case': [True, False], 'fast_lookup': ['registered', 'deregistered'], 'filter_callback': 'on the unfiltered query and on 10 % of the pattern queries'},
+                   'is_case': [True, False], 'fast_lookup': ['registered', 'deregistered'],
+                   'edit_history': '60 % of the netlists: 1-6 identifier / name changes, identifier deletes and pops on elements in place before querying; up to 3 retired values queried as well', 'filter_callback': 'on the unfiltered query and on 10 % of the pattern queries'},
     },
     'C15': {
         'script': 'b_c15.py', 'split': False,
         'quick': {'seeds': 1, 'cfg': {'workers': W}},
         'thorough': {'seeds': 1, 'cfg': {'workers': W}},
         'rule': 'one case = (format, corrupted text, policy before the call); non-trivial = the text differs from the unmodified file',
-        'bounds': {'max_tokens_per_file': 400, 'time_limit_per_parse_s': 5, 'files': 'bundled examples <= 400 tokens (7) + 3 hand-written tiny files',
-                   'mutations': 'truncate at / delete / duplicate / replace every token; every cellRef, libraryRef, instanceRef, portRef, viewRef name made dangling (EDIF)',
+        'bounds': {'max_tokens_per_file': 400, 'time_limit_per_parse_s': 5, 'files': 'bundled examples <= 400 tokens (7) + 5 hand-written small files (incl. a three-level EDIF hierarchy and a five-module Verilog chain)',
+                   'mutations': 'truncate at / delete / duplicate / replace every token; every cellRef, libraryRef, instanceRef, portRef, viewRef name made dangling (EDIF); cellRef re-targeted to a cell of another library; instanceRef re-targeted to an instance declared in another cell; every Verilog instantiation re-targeted to every other declared module',
+                   'hang_verdict': 'a case that does not answer within the limit is run again alone with six times the limit; only the second verdict counts',
                    'replacements_per_token': {'quick': 1, 'thorough': 3}, 'policy_before_call': ['DEFAULT', 'EDIF'], 'child_processes': W},
     },
     'C16': {
@@ -67,7 +69,8 @@ SPEC = {
                                 '40 % of the netlists with names that need escaping, 20 % without a netlist name',
                    'bundled_examples': len(C16_EXAMPLES), 'formats': ['edf', 'v', 'eblif'],
                    'options': {'v': 'definition_list in {[], [top], [last]} x write_blackbox x defparam', 'eblif': 'write_blackbox x write_eblif_cname', 'edf': 'none'},
-                   'second_compose': 'immediately or after a batch of read-only queries (50 / 50)'},
+                   'second_compose': 'immediately or after a batch of read-only queries (50 / 50)',
+                   'third_compose': 'over an existing, longer file (the text must equal the fresh-path text)'},
     },
     'C17': {
         'script': 'b_c17.py', 'split': True,
